@@ -23,12 +23,13 @@ import (
 )
 
 type emTerm struct {
-	Kind string // U V B RAW REP
-	Arg  string
-	Over string
-	Body []emTerm
-	Pos  ssa.Instruction
-	Fn   *ssa.Function
+	Scratch int64  // for U/V: length of the scratch array the varint is written into
+	Kind    string // U V B RAW REP
+	Arg     string
+	Over    string
+	Body    []emTerm
+	Pos     ssa.Instruction
+	Fn      *ssa.Function
 }
 
 func (t emTerm) String() string {
@@ -321,6 +322,7 @@ func (env *emEnv) appended(at *ssa.Call, y ssa.Value) (emTerm, error) {
 						}
 						t.Kind = map[string]string{"encoding/binary.PutUvarint": "U", "encoding/binary.PutVarint": "V"}[writer]
 						t.Arg = d
+						t.Scratch = arr.Len()
 						return t, nil
 					}
 					return t, emFail("scratch array appended up to %s, which is not the count its writer returned", ir.Sym(sl.High))
@@ -470,6 +472,10 @@ func (env *emEnv) desc(v ssa.Value) (string, error) {
 		}
 		if ta, ok := x.Tuple.(*ssa.TypeAssert); ok && x.Index == 0 {
 			d, err := env.desc(ta.X)
+			// `s, ok := x.(string)`: the string, or "" when x holds no string (nil)
+			if err == nil && ta.CommaOk && fxShortType(ta.AssertedType) == "string" {
+				return "str(" + d + ")", nil
+			}
 			return d, err
 		}
 	case *ssa.TypeAssert:
